@@ -17,6 +17,7 @@ use typstyle_core::{Config, Typstyle};
 
 use crate::universe::sha_hex;
 
+const LINK_TARGET: &str = ".g/e.typ";
 const DIRS: [&str; 5] = ["w/s", "w/.g", "w/x.typ", "w/.r", "w/.r/s"];
 
 const F_VARIANTS: [&str; 4] = [
@@ -217,10 +218,17 @@ fn run_once(bin: &Path, wdir: &Path, argv: &[String], stdin: Option<&[u8]>, stra
     }
 }
 
-fn observe(wdir: &Path, orig: &BTreeMap<String, Vec<u8>>, fmt: &BTreeMap<String, Option<String>>, slots: &[String]) -> Value {
+fn observe(wdir: &Path, orig: &BTreeMap<String, Vec<u8>>, fmt: &BTreeMap<String, Option<String>>, slots: &[String], links: &[String]) -> Value {
     let mut m = serde_json::Map::new();
     for s in slots {
         let p = wdir.parent().unwrap().join(s);
+        if links.contains(s) {
+            // the link itself: still a link to the same target?
+            let same = fs::symlink_metadata(&p).map(|m| m.file_type().is_symlink()).unwrap_or(false)
+                && fs::read_link(&p).map(|t| t == Path::new(LINK_TARGET)).unwrap_or(false);
+            m.insert(s.clone(), json!({"eq": if same { "same" } else { "other" }, "mtime": !same}));
+            continue;
+        }
         let st = match (orig.get(s), fs::read(&p)) {
             (None, Err(_)) => json!({"eq": "same", "mtime": false}),
             (None, Ok(_)) => json!({"eq": "other", "mtime": true}),
@@ -266,11 +274,21 @@ pub fn run_scenarios(scen_path: &Path, bin: &Path, work: &Path, out_dir: &Path, 
             let mut fmt: BTreeMap<String, Option<String>> = BTreeMap::new();
             let mut fs0 = serde_json::Map::new();
             let mut slots: Vec<String> = vec![];
+            let mut links: Vec<String> = vec![];
             for (slot, v) in sc["fs0"].as_object().unwrap() {
                 slots.push(slot.clone());
                 let cls = v["cls"].as_str().unwrap();
                 if cls == "A" {
                     fs0.insert(slot.clone(), json!({"cls": "A", "req": "A"}));
+                    continue;
+                }
+                if cls == "L" {
+                    // a symbolic link named *.typ to the file in the hidden directory
+                    let p = base.join(slot);
+                    let _ = fs::remove_file(&p);
+                    std::os::unix::fs::symlink(LINK_TARGET, &p).unwrap();
+                    fs0.insert(slot.clone(), json!({"cls": "L", "req": "L"}));
+                    links.push(slot.clone());
                     continue;
                 }
                 let bytes = content_for(cls, &id, slot);
@@ -342,7 +360,7 @@ pub fn run_scenarios(scen_path: &Path, bin: &Path, work: &Path, out_dir: &Path, 
                     }
                 }
                 let ob = run_once(bin, &wdir, &argv, stdin_data.as_deref(), strace, &logp);
-                let fs_now = observe(&wdir, &orig, &fmt, &slots);
+                let fs_now = observe(&wdir, &orig, &fmt, &slots, &links);
                 let ev = json!({
                     "ev": "cli", "id": id, "run": run, "inv": inv_out, "argv": argv,
                     "style": {"c": cfg.max_width, "t": cfg.tab_spaces, "ro": cfg.reorder_import_items},
